@@ -70,6 +70,13 @@ func judgeC02(rep *core.Report, fi *FuncInfo, recs []*execmon.Rec) {
 		rep.Violate(&core.Violation{Property: "C02", Monitor: "plan", Symptom: "assigns-non-destination", Features: mf, Case: c.S.ID,
 			Detail: "assignment to a variable that is not the destination operand: " + strings.Join(fi.Foreign, " | "), Files: c.ReplayFiles()})
 	}
+	for i := range fi.Plan.Items {
+		if it := &fi.Plan.Items[i]; it.Kind == "other" {
+			rep.Violate(&core.Violation{Property: "C02", Monitor: "plan", Symptom: "unrecognized-statement", Features: mf, Case: c.S.ID,
+				Detail: "generated function " + fi.Plan.Key() + " contains a statement outside the documented vocabulary (assignment, guarded slice copy, nested-struct block, hook call, error check, skip/no-match comment): " + it.Text, Files: c.ReplayFiles()})
+			break
+		}
+	}
 	seen := map[string]bool{}
 	for _, r := range recs {
 		if r.Fail != "" {
